@@ -38,14 +38,17 @@ class Fn:
         return out
     def calls(self):
         for bi, b in enumerate(self.blocks):
+            if b["cleanup"]: continue          # unwind paths are not normal behaviour
             t = b["t"]
             if t[0] == "call":
                 yield bi, t
     def terms(self):
         for bi, b in enumerate(self.blocks):
+            if b["cleanup"]: continue
             yield bi, b["t"]
     def stmts(self):
         for bi, b in enumerate(self.blocks):
+            if b["cleanup"]: continue
             for si, s in enumerate(b["s"]):
                 yield bi, si, s
 
